@@ -117,6 +117,7 @@ let parse_op (toks : string list) : op =
   | ["hdrop"; r] -> OHDrop (nat r)
   | ["hreadtoend"; r] -> OHReadToEnd (nat r)
   | ["setfault"; id; k] -> OSetFault (nat id, nat k)
+  | ["setiofault"; m] -> OSetIo (match m with "r" -> IoReads | "w" -> IoWrites | _ -> IoAll)
   | ["clearlog"] -> OClearLog
   | x :: _ when String.length x > 0 && x.[0] = 'x' -> ONop
   | _ -> failwith ("bad op " ^ String.concat " " toks)
